@@ -81,8 +81,12 @@ type violation struct {
 }
 
 func oblCounts(prop *PropConfig, o *Obligation, u *Unit) bool {
+	if u.Kind == "sweep" {
+		// the sweep decides absence of panics only; functional clauses belong to other properties
+		return strings.HasPrefix(o.Kind, "safe.") || o.Kind == "cover" || o.Kind == "cover.soft" || o.Kind == "requires"
+	}
 	if strings.HasPrefix(o.Kind, "safe.") {
-		return prop.Safety || u.Kind == "sweep"
+		return prop.Safety
 	}
 	return true
 }
@@ -120,12 +124,30 @@ func runCheck(propID, repo, verif, tier string, verbose bool) int {
 	for _, l := range prop.Lemmas {
 		units = append(units, p.verifyLemma(l))
 	}
-	sweepSet := append([]string{}, prop.Sweep...)
+	// safety sweep (C19): the entry points and every function under contract in their call
+	// closure are encoded with safety obligations on; un-contracted helpers are covered by
+	// being inlined into those units.
+	sweepUnits := map[string]bool{}
+	var closure []string
 	if len(prop.SweepRoots) > 0 {
-		sweepSet = append(sweepSet, p.callClosure(prop.SweepRoots)...)
+		closure = p.callClosure(prop.SweepRoots)
+		rootSet := map[string]bool{}
+		for _, r := range prop.SweepRoots {
+			rootSet[expandKey(p, r)] = true
+		}
+		for _, k := range closure {
+			fc := p.Contracts[k]
+			if rootSet[k] || (fc != nil && !fc.inlineOnly() && fc.Trusted == "") {
+				sweepUnits[k] = true
+			}
+		}
 	}
-	for _, k := range dedup(sweepSet) {
-		units = append(units, p.verifyFunc(expandKey(p, k), "sweep"))
+	for _, k := range prop.Sweep {
+		sweepUnits[expandKey(p, k)] = true
+	}
+	for _, k := range sortedKeys(sweepUnits) {
+		u := p.verifyFunc(k, "safety")
+		units = append(units, u)
 	}
 	ownSet := append([]string{}, prop.Own...)
 	if len(prop.OwnRoots) > 0 {
